@@ -9,6 +9,7 @@ import (
 	"math/rand"
 	"strings"
 	"sync"
+	"sync/atomic"
 	"time"
 
 	"github.com/prometheus/client_golang/prometheus"
@@ -312,8 +313,9 @@ func Exec(c *Case, rseed int64) *Obs {
 		case p := <-fin:
 			obs.Panic = "panic: " + p
 			return obs
-		case <-time.After(60 * time.Second):
-			obs.Panic = "hang: cycle did not complete within 60 s"
+		case <-time.After(hangPatience()):
+			obs.Panic = fmt.Sprintf("hang: cycle did not complete within %v", hangPatience())
+			atomic.AddInt32(&hangsSeen, 1)
 			return obs
 		}
 	}
@@ -324,4 +326,16 @@ func Exec(c *Case, rseed int64) *Obs {
 	case <-time.After(30 * time.Second):
 	}
 	return obs
+}
+
+// hangsSeen: cycles of this worker process that did not complete. A scripted cycle takes milliseconds; the first two
+// hangs are given 60 s each (a loaded machine must not look like a hang), after that the tree evidently hangs and the
+// remaining cases of this process wait 5 s only, so that a run over a tree that hangs ends within minutes, not hours.
+var hangsSeen int32
+
+func hangPatience() time.Duration {
+	if atomic.LoadInt32(&hangsSeen) >= 2 {
+		return 5 * time.Second
+	}
+	return 60 * time.Second
 }
